@@ -18,7 +18,9 @@ CONTENT = {
     "stemorder": ["a.cmake", "a-b.cmake"],
     "cmakeinname": ["a.cmake", "a.cmake-3.cmake"],     # '.cmake' occurs in front of the real extension
     "dotfile": [".defaults.cmake"],
-    "upperonly": ["B.CMake", "n.txt"],      # the only CMake file has a mixed-case extension
+    "upperonly": ["B.CMake", "n.txt"],
+    "casepair": ["a.cmake", "Main.cmake", "main.cmake"],     # stems that differ only in letter case
+    "dotcmake": ["a.cmake", ".cmake", "..cmake"],            # nothing in front of the extension      # the only CMake file has a mixed-case extension
     "templates": ["a.cmake", "Pkg.cmake.in", "gcc.cmake.orig", "b.cmake_"],    # '.cmake' is not the extension: no CMake files
     "formfeed": ["a.cmake", "ff.cmake"],       # ff.cmake's doccomment holds FF and LS characters
     "indexfile": ["a.cmake", "index.cmake"],    # its page has the path of the directory index (known finding K4)
@@ -28,7 +30,8 @@ CONTENT = {
 
 
 def is_cmake(name):
-    return name.lower().endswith(".cmake")
+    # a file whose whole name is the extension has no base name: it is no CMake module (F15, like a file named 'cmake')
+    return name.lower().endswith(".cmake") and name.lower() != ".cmake"
 
 
 def shapes(max_nodes, max_depth):
